@@ -826,6 +826,11 @@ def _storage_features(ctx: Ctx, c, mname: str) -> dict:
     for js in [x for x in walk_local(m.node) if isinstance(x, ast.JoinedStr)]:
         for x in ast.walk(js):
             in_fstr.add(id(x))
+    # ... and so may the arguments of logging calls
+    for lc in [x for x in calls_in(m.node) if isinstance(x.func, ast.Attribute) and x.func.attr in ('debug', 'info', 'warning', 'error', 'exception', 'log')
+               and 'log' in src(x.func.value).lower()]:
+        for x in ast.walk(lc):
+            in_fstr.add(id(x))
     feats['no_raw_key_use'] = not [n for n in raw_key_uses if id(n) not in in_fstr]
     if mname == 'file_handle':
         opens = [call for call in calls_in(m.node) if isinstance(call.func, ast.Attribute) and call.func.attr == 'open']
